@@ -81,9 +81,9 @@ let rec is_prefix (a : string list) (b : string list) = match a, b with
 
 let nth_iter st i = nth_error (st_iters st) (nat_of_int i)
 
-let direct (variant : int) (max : int) (qs : value list) (ops : value list) (writes : value list)
+let direct (_variant : int) (max : int) (qs : value list) (ops : value list) (writes : value list)
     (leftover : int) (hung : int) : string =
-  let var = if variant = 2 then V2 else V1 in
+  let var_of v = if v = 2 then V2 else V1 in
   let queries = Array.of_list (List.map query_of qs) in
   let diffs = ref [] and props = ref [] in
   let diff s = diffs := s :: !diffs and prop s = props := s :: !props in
@@ -98,6 +98,7 @@ let direct (variant : int) (max : int) (qs : value list) (ops : value list) (wri
   let it_done : (int, bool) Hashtbl.t = Hashtbl.create 8 in
   let it_v2hit : (int, bool) Hashtbl.t = Hashtbl.create 8 in
   let lossy_keys = ref [] in
+  let used : (int * int) list ref = ref [] in   (* (key, variant) pairs that were opened *)
   let niter = ref 0 in
   let opno = ref 0 in
   let check_mask (m : value) =
@@ -116,8 +117,10 @@ let direct (variant : int) (max : int) (qs : value list) (ops : value list) (wri
   List.iter (fun opv ->
     incr opno;
     match as_list opv with
-    | [I "0"; qi; higher; script; lossy; openerr; status; mask] ->
+    | [I "0"; qi; higher; script; lossy; openerr; status; ovar; mask] ->
       let q = queries.(as_int qi) in
+      let var = var_of (as_int ovar) in
+      used := (q.key, as_int ovar) :: !used;
       let qd = mk_q var max q (as_bool higher) (List.map as_int (as_list script)) (as_bool lossy) (as_int openerr) in
       if as_bool lossy then lossy_keys := q.key :: !lossy_keys;
       let (st', o) = step !st (OOpen qd) in
@@ -131,7 +134,7 @@ let direct (variant : int) (max : int) (qs : value list) (ops : value list) (wri
       incr niter;
       Hashtbl.replace it_query id (as_int qi);
       Hashtbl.replace it_items id [];
-      Hashtbl.replace it_v2hit id (variant = 2 && as_int status = 0);
+      Hashtbl.replace it_v2hit id (as_int ovar = 2 && as_int status = 0);
       check_mask mask
     | [I code; it; ctx; r; mask] when code = "1" || code = "2" ->
       let i = as_int it in
@@ -203,10 +206,13 @@ let direct (variant : int) (max : int) (qs : value list) (ops : value list) (wri
                    (String.concat "," (List.map string_of_int mw)) (String.concat "," (List.map string_of_int ow)))
        | _ -> diff (Printf.sprintf "op %d: the implementation made a background call on iterator %d (%s) where the model has none" !opno i (show_obs r)));
       check_mask mask
-    | [I "5"; marker; whenv; mask] ->
+    | [I "5"; marker; whenv; key; mask] ->
       let now = st_clock !st in
       let nowi = int_of_n now + 1 in
-      let ts = match as_int whenv with 0 -> N0 | 1 -> n_of_int nowi | _ -> n_of_int (nowi + 1000000000) in
+      let ts = match as_int whenv with
+        | 0 -> N0 | 1 -> n_of_int nowi | 2 -> n_of_int (nowi + 1000000000)
+        | _ -> (match alist_get (n_of_int (as_int key)) (st_cache !st) with
+            | Some (CE1 (_, t)) -> t | Some (CE2 (_, t)) -> t | None -> n_of_int nowi) in
       let (st', _) = step !st (OInval (n_of_int (as_int marker), ts)) in
       st := st'; check_mask mask
     | [I "6"; key; mask] ->
@@ -226,15 +232,19 @@ let direct (variant : int) (max : int) (qs : value list) (ops : value list) (wri
   if leftover <> 0 then diff (Printf.sprintf "%d unexpected inner-iterator events" leftover);
   if hung <> 0 then diff "an expected event of the implementation did not arrive (timeout)";
   (* ---- the property's own predicate, on observed values ---- *)
-  let kf_for (q : qrec) = kf_of (mk_q var max q false [] false 0) in
-  let byp (q : qrec) = bypass (mk_q var max q false [] false 0) in
+  let kf_for v (q : qrec) = kf_of (mk_q (var_of v) max q false [] false 0) in
+  let byp_v v (q : qrec) = bypass (mk_q (var_of v) max q false [] false 0) in
+  let vars_of k = List.sort_uniq compare (List.filter_map (fun (k', v) -> if k' = k then Some v else None) !used) in
+  let byp (q : qrec) = List.for_all (fun v -> byp_v v q) (vars_of q.key) in
   let truth (q : qrec) = List.map show_tuple q.items in
   let truth_nots (q : qrec) = List.map (fun t -> show_tuple (strip_ts t)) q.items in
   let key_ok k =
     (* the inner reader kept its contract for every query stored under this key *)
     not (List.mem k !lossy_keys) &&
-    Array.for_all (fun q -> q.key <> k || byp q ||
-                            List.for_all (fun t -> if variant = 2 then consistent2 (kf_for q) t else consistent (kf_for q) t) q.items) queries in
+    Array.for_all (fun q -> q.key <> k ||
+                            List.for_all (fun v -> byp_v v q ||
+                              List.for_all (fun t -> if v = 2 then consistent2 (kf_for v q) t else consistent (kf_for v q) t) q.items)
+                              (vars_of k)) queries in
   (* two different queries under one key *)
   Array.iteri (fun i q -> Array.iteri (fun j q' ->
       if i < j && q.key = q'.key && not (byp q) && not (byp q') && truth q <> truth q' then
